@@ -1784,11 +1784,29 @@ def _build_side_branch(w: World, main_packed: bool):
     return ["side-branch-in-own-pack", "main-" + ("packed" if main_packed else "loose")]
 
 
+_REFLOG_LINE = _re.compile(r"error: .*: invalid reflog entry ([0-9a-f]{40})$")
+
+
+def _drop_reflog_only(ctx, bad_lines, reachable):
+    """`git fsck` also validates reflogs.  Neither the property ("reachable from any ref or HEAD") nor dulwich's gc
+    (find_reachable_objects walks refs.allkeys(); reflog support is a TODO there) counts reflog entries as roots, so a
+    reflog entry naming an object that was NOT reachable from refs + HEAD when the operation ran may legitimately dangle.
+    Only such lines are dropped; a reflog complaint about a reachable object stays a failure."""
+    keep = set()
+    for l in bad_lines:
+        m = _REFLOG_LINE.match(l)
+        if m and m.group(1) not in reachable:
+            ctx.extra_cov["fsck_reflog_lines_ignored"] = ctx.extra_cov.get("fsck_reflog_lines_ignored", 0) + 1
+            continue
+        keep.add(l)
+    return keep
+
+
 def _fsck_bad(path: Path, env):
     # the object database only: stale commit-graph / multi-pack-index files written by an earlier `git gc` are C14's business
     rc, out = core.sh(["git", "-C", str(path), "-c", "core.commitGraph=false", "-c", "core.multiPackIndex=false",
                        "fsck", "--no-dangling", "--no-progress"], env=env, timeout=120)
-    return {l for l in out.splitlines() if (l.startswith(("missing", "broken link", "error", "fatal", "bad ")) and "reflog" not in l)}
+    return {l for l in out.splitlines() if l.startswith(("missing", "broken link", "error", "fatal", "bad "))}
 
 
 def _git_missing(path: Path, env, ids):
@@ -1956,7 +1974,7 @@ def stale_case(ctx, idx, stream="stale.maint", targeted=None):
                                 f"{'raised ' + type(exc).__name__ if exc else 'returned'}): {h}", None)
             else:
                 miss = _git_missing(w.path, env, expected)
-                new_bad = _fsck_bad(w.path, env) - bad_before
+                new_bad = _drop_reflog_only(ctx, _fsck_bad(w.path, env) - bad_before, clos)
                 if miss or new_bad:
                     ctx.oracle_fail(stream, dict(case, git_missing=miss[:5], fsck=sorted(new_bad)[:5]),
                                     f"C git no longer finds reachable objects after {opk}(grace={g}) from a long-lived handle: "
@@ -2228,12 +2246,14 @@ def _run_writer_schedule(ctx, sc, work, schedule, external=None):
             state["done"] = True
             if a == "M":
                 if external is not None and state["mblocks"] == external[0]:
+                    s.ext_at = len([e for e in history if e[1] != "start"])
                     external[1]()
                 state["mblocks"] += 1
         released.append(a)
         return a
     s.run(choose)
     if external is not None and state["mblocks"] <= external[0]:
+        s.ext_at = len([e for e in s.history if e[1] != "start"])
         external[1]()
     return s, released
 
@@ -2318,6 +2338,9 @@ def _writer_oracle(ctx, stream, sc, work, s, released, schedule, bad_before, env
                       and (e[2][-1] or "").startswith("objects/")] or [10 ** 9])
     m_lists = [i for i, e in enumerate(hist) if e[0] == "M" and e[1] == "listdir" and e[2][-1] == "objects/pack"
                and i < m_first_rm]
+    ext_at = getattr(s, "ext_at", None)
+    if ext_at is not None:      # an external process landed the pack and the ref just before history[ext_at]
+        t_ref = t_pack = ext_at - 0.5
     exempt = grace in (0, None) and t_ref > m_refread and bool(m_lists) and t_pack < max(m_lists)
 
     def new_objects_lost(what, lost):
@@ -2344,7 +2367,8 @@ def _writer_oracle(ctx, stream, sc, work, s, released, schedule, bad_before, env
     else:
         rc, out = core.sh(["git", "-C", str(work), "-c", "core.commitGraph=false", "-c", "core.multiPackIndex=false", "fsck",
                            "--connectivity-only", "--no-dangling", "--no-progress"], env=env, timeout=120)
-        new_bad = {l for l in out.splitlines() if (l.startswith(("missing", "broken link", "error", "fatal", "bad ")) and "reflog" not in l)} - bad_before
+        new_bad = {l for l in out.splitlines() if l.startswith(("missing", "broken link", "error", "fatal", "bad "))} - bad_before
+        new_bad = _drop_reflog_only(ctx, new_bad, clos)
         if new_bad:
             ctx.oracle_fail(stream, dict(case, fsck=sorted(new_bad)[:5]),
                             f"git fsck --connectivity-only after {sc.maint} + concurrent {sc.writer}: {sorted(new_bad)[0]}", None)
@@ -2360,7 +2384,7 @@ def _writer_oracle(ctx, stream, sc, work, s, released, schedule, bad_before, env
             ctx.oracle_fail(stream, dict(case, object=h, age=age, grace=grace),
                             f"unreachable object only {age} s old disappeared during {sc.maint} (grace {grace})", None)
             n_fail += 1
-    if wres is not None and wexc is None and not bad:
+    if (wres is not None or ext_at is not None) and wexc is None and not bad:
         gone_new = sorted(set(sc.new) - present)
         if gone_new:
             new_objects_lost(f"objects the {sc.writer} writer stored while {sc.maint} ran are gone although the writer "
@@ -2435,7 +2459,7 @@ def run_wscenario(ctx, sc, stream, max_pre, cap, nrandom, only=None):
     env = core.clean_env()
     rc, out = core.sh(["git", "-C", str(sc.template), "-c", "core.commitGraph=false", "fsck", "--connectivity-only",
                        "--no-dangling", "--no-progress"], env=env, timeout=120)
-    bad_before = {l for l in out.splitlines() if (l.startswith(("missing", "broken link", "error", "fatal", "bad ")) and "reflog" not in l)}
+    bad_before = {l for l in out.splitlines() if l.startswith(("missing", "broken link", "error", "fatal", "bad "))}
     if only is not None:
         schedules = [list(x) for x in only]
     else:
@@ -2497,7 +2521,7 @@ def _stream_writer_git(ctx, nscen, stream="sched.writer.git", first_idx=400000):
         try:
             rc, out = core.sh(["git", "-C", str(sc.template), "-c", "core.commitGraph=false", "fsck", "--connectivity-only",
                                "--no-dangling", "--no-progress"], env=env, timeout=120)
-            bad_before = {l for l in out.splitlines() if (l.startswith(("missing", "broken link", "error", "fatal", "bad ")) and "reflog" not in l)}
+            bad_before = {l for l in out.splitlines() if l.startswith(("missing", "broken link", "error", "fatal", "bad "))}
             from harness import sched as S
             shutil.rmtree(work, ignore_errors=True)
             shutil.copytree(sc.template, work, symlinks=True)
@@ -2571,14 +2595,17 @@ def run(ctx: core.Ctx):
         "directory listing is atomic; no multi-pack-index; alternates static",
         "the order in which a directory scan inserts new packs into the reader's cache (Python set order) is observed "
         "from the real cache and given to the model as the listing order",
+        "git fsck lines `invalid reflog entry <sha>` are ignored only when <sha> was not reachable from refs + HEAD when the "
+        "operation ran (reflogs are roots neither in the property nor in dulwich's gc); the count is in "
+        "coverage.fsck_reflog_lines_ignored",
     ]
     ctx.extra_cov["translated_constants"] = c
     _run_corpus(ctx)
     _stream_logical(ctx, ctx.budget(120, mult=10))
     _stream_stale(ctx, ctx.budget(40, mult=8))
     if ctx.thorough:
-        _stream_writer(ctx, 24, 2, 120, 20)
-        _stream_writer_git(ctx, 12)
+        _stream_writer(ctx, 16, 2, 100, 16)
+        _stream_writer_git(ctx, 8)
     else:
         _stream_writer(ctx, ctx.budget(7), 2, 36, 6)
     if ctx.thorough:
